@@ -126,12 +126,12 @@ def t3_arr(case):
     rng = rng_for(case)
     c = Clauses(PID, 'regression.arr', case, modfunc=('vt.props.c16', 't3_arr'))
     d = int(rng.integers(1, 4))
-    p = int(rng.integers(2, 4))
+    p = int(rng.integers(2, 5))
     m = int(rng.integers(3, 12))
     x = rng.uniform(-1, 1, (d, m))
     ny = int(rng.integers(1, 3))
     y = rng.standard_normal((ny, m))
-    basis = [[tr.Monomial(int(rng.integers(d)), e) for e in range(int(rng.integers(1, 4)))] for _ in range(p)]
+    basis = [[tr.Monomial(int(rng.integers(d)), e) for e in range(int(rng.integers(2, 4)))] for _ in range(p)]
     n = [len(b) for b in basis]
     Psi = np.zeros(n + [m])
     for ix in itertools.product(*[range(k) for k in n]):
@@ -145,6 +145,39 @@ def t3_arr(case):
     def resid(sol, k):
         f = np.tensordot(spec.den(sol).reshape(n), Psi, axes=(list(range(p)), list(range(p))))
         return float(np.linalg.norm(f - y[k]))
+    # run-time contracts on the private environment builders: stack_left[i][:, j] / stack_right[i][:, j] are the partial
+    # contractions of the solution cores with the basis evaluations at snapshot j
+    mon = {'bad': [], 'n': 0}
+    evals = [np.array([[basis[k][q](x[:, j]) for j in range(m)] for q in range(n[k])]) for k in range(p)]    # (n_k, m)
+
+    def wrap_left(fn):
+        def w(i, stack_left, x_data, basis_list, solution):
+            fn(i, stack_left, x_data, basis_list, solution)
+            want = np.ones((1, m))
+            for k in range(i):
+                want = np.einsum('ij,kj,ikl->lj', want, evals[k], solution.cores[k][:, :, 0, :])
+            mon['n'] += 1
+            got = stack_left[i] if stack_left[i].shape == want.shape else np.broadcast_to(stack_left[i], want.shape)   # boundary entry is a broadcast (1, 1) one
+            okc, det = spec.close(got, want, 1e-9)
+            if not okc:
+                mon['bad'].append('stack_left[%d]: %s' % (i, det))
+        return w
+
+    def wrap_right(fn):
+        def w(i, stack_right, x_data, basis_list, solution):
+            fn(i, stack_right, x_data, basis_list, solution)
+            want = np.ones((1, m))
+            for k in range(p - 1, i, -1):
+                want = np.einsum('ikl,kj,lj->ij', solution.cores[k][:, :, 0, :], evals[k], want)
+            mon['n'] += 1
+            got = stack_right[i] if stack_right[i].shape == want.shape else np.broadcast_to(stack_right[i], want.shape)
+            okc, det = spec.close(got, want, 1e-9)
+            if not okc:
+                mon['bad'].append('stack_right[%d]: %s' % (i, det))
+        return w
+    saved = {k: reg.__dict__[k] for k in ('__arr_construct_stack_left', '__arr_construct_stack_right')}
+    reg.__dict__['__arr_construct_stack_left'] = wrap_left(saved['__arr_construct_stack_left'])
+    reg.__dict__['__arr_construct_stack_right'] = wrap_right(saved['__arr_construct_stack_right'])
     res = []
     last = None
     for rep in (1, 2, 3):
@@ -153,6 +186,8 @@ def t3_arr(case):
             break
         last = sols
         res.append([resid(s, k) for k, s in enumerate(sols)])
+    reg.__dict__.update(saved)
+    c.add('post:environments==partial-contractions', not mon['bad'], '; '.join(mon['bad'][:3]), nontrivial=mon['n'] > 0)
     if len(res) == 3:
         r0 = [resid(guess, k) for k in range(ny)]
         allr = [r0] + res
